@@ -125,6 +125,28 @@ pub fn spec(property: &str, tier: &str) -> Option<CheckSpec> {
 			sp.stub_components = vec!["the remote peer (simulator owns the other end of the socket and the fragmentation)".into(), "p2p::Protocol/Peer (the reader loop mirrors conn::poll: stop at the first error; expect_attachment after TxHashSetArchive)".into()];
 			Some(sp)
 		}
+		"C17" => {
+			let mut sp = s(
+				"schedsim",
+				"exploration",
+				if quick { 16 } else { 64 },
+				"case = one generated two-to-three-branch world and two (thorough: six) thread plans; run = one seeded schedule of a fixed multiset of operations over 4-8 simulated threads: 2-3 peers submitting the bodies of competing forks (headers pre-delivered, duplicates, locally swapped orders), 1-2 readers (head, get_block(head), header by height, get_unspent), optionally a template builder (set_txhashset_roots), a segment server (segmenter + kernel/output segment) and a compactor (compact + validate). Threads are real OS threads released one at a time by a seeded baton scheduler at every grin_util lock acquire/release, at the LMDB writer token, at the labelled durable steps and at sleeps. Oracle: no deadlock (all live threads blocked), no panic, every observed head names a stored block of the same height/difficulty, head difficulty never decreases per reader, no read returns an error; at join the head is the unique most-work block (what every sequential order of the same submissions yields), validate(false) passes and the unspent view equals the replayed ledger. distinct = distinct context-switch sequences (hash of (thread, label) at every switch); the first run of every case is replayed from its recorded choice list and must reproduce the identical trace",
+				vec!["scheduling points are lock operations, durable steps and sleeps: data races inside a critical section are out of reach", "all headers are delivered before the threads start so that every submission order is a legal history"],
+				vec!["context_switches", "reader_observations", "replay_identical"],
+			);
+			sp.real_components = vec![
+				"grin_chain::Chain (process_block, readers, set_txhashset_roots, segmenter, compact, validate), pipe, TxHashSet, OrphanBlockPool".into(),
+				"grin_store LMDB wrapper (batches, enter_tx, resize gate) and PMMR backends; heed/LMDB itself".into(),
+				"real OS threads, thread-locals and thread-affine LMDB transactions".into(),
+			];
+			sp.stub_components = vec![
+				"parking_lot blocking: replaced by try-lock + scheduler yield with parking_lot's writer-preference rule modelled (hook H1)".into(),
+				"LMDB writer mutex: shadowed by a scheduler-aware token (hook H2)".into(),
+				"p2p / servers threads (the harness threads call the same Chain API)".into(),
+			];
+			sp.case_timeout_s = 1500;
+			Some(sp)
+		}
 		"C16" => {
 			let mut sp = s(
 				"pibdsim",
@@ -821,6 +843,7 @@ pub fn run_case(property: &str, tier: &str, seed: u64, case: u64) -> CaseResult 
 		"C11" => crate::wiresim::c11_case(tier, seed, case),
 		"C14" => crate::poolsim::case(tier, seed, case),
 		"C16" => crate::pibdsim::case(tier, seed, case),
+		"C17" => crate::schedsim::case(tier, seed, case),
 		"C15" => {
 			if case % 3 == 2 {
 				let mut r = crate::txhsim::case(tier, seed, case);
